@@ -31,9 +31,9 @@ ASSUME = [
 
 
 def gen_case(rng):
-    f = rm.gen_sig(rng)
+    f = rm.gen_sig(rng, near=True)
     n = f['n']
-    box = rm.gen_box(rng, n) if rng.random() < 0.45 else None
+    box = rm.gen_box(rng, n, eq=True) if rng.random() < 0.45 else None
     ell = rng.choice([0, 0, 1, 1, 2])
     mod = None
     if ell > 0 and rng.random() < 0.3:
